@@ -292,7 +292,9 @@ def _virtual_items(ctx, res):
                                     b"Name=Other doc\nType=0\nPath=/x.txt\nHost=gopher.example.net\nPort=7070\n")
         tree.write("remote/local.txt", b"local\n")
         tree.write("remote/.abstract", b"directory abstract\n")
-        objs = objs + [("/remote", "dir"), ("/remote/local.txt", "file")]
+        objs = objs + [("/remote", "dir"), ("/remote/local.txt", "file"),
+                       # documents the server writes itself (URL redirect pages), with text that is longer in bytes than in characters
+                       ("URL:http://example.org/caf\xe9", "file"), ("/URL:https://example.org/\u4e2d\u6587?q=\xfc", "file"), ("URL:http://example.org/plain", "file")]
         for hl, hname in ((None, "shipped"), (pyg.DIR_HANDLERS, "dir")):
             cfg = pyg.make_config(tree.root, hl, **{"handlers.dir.DirHandler|cachetime": "0"})
             admin = cfg.get("protocols.gopherp.GopherPlusProtocol", "admin").encode()
